@@ -583,7 +583,9 @@ func genMatcherStep(t *rapid.T, kind string, cur JNode, comps []pathComp) matche
 		if rapid.Bool().Draw(t, "customph") {
 			ph := rapid.SampledFrom(placeholderPool).Draw(t, "ph")
 			if kind == "yaml" {
-				ph = rapid.SampledFrom([]string{`"<Any value>"`, `"x"`, `42`, `true`, `{"k":1}`, `"longer placeholder text"`, `[1,2]`}).Draw(t, "yph")
+				ph = rapid.SampledFrom([]string{`"<Any value>"`, `"x"`, `42`, `true`, `{"k":1}`, `"longer placeholder text"`, `[1,2]`,
+					// strings that are not safe plain scalars: they stay the caller's strings only if they are quoted on the way in
+					`"***"`, `""`, `"null"`, `"~"`, `"0000"`, `"123"`, `"true"`, `"#id"`, `"masked: token"`, `"- dash"`, `"@at"`, `"%pct"`, `"a: b # c"`, `" lead"`, `"trail "`, `"1e3"`, `"0x1F"`, `"2024-01-02"`, `"&anchor"`, `"*alias"`, `"? q"`, `"| pipe"`, `"> gt"`, `"{brace"`, `"[bracket"`, `"'single"`, `"\"double"`}).Draw(t, "yph")
 			} else if rel := rapid.IntRange(0, 5).Draw(t, "phrel"); rel < 3 {
 				// placeholders related to the value they replace: the value itself, a string spelling its JSON source
 				// text (escapes included, e.g. the 4 characters a\nb for the value "a<LF>b"), the same with the quotes
@@ -1066,6 +1068,55 @@ func classifyC15(c c15Case) ([]string, bool) {
 		}
 	}
 	return uniq(cls), nt
+}
+
+// ---- K6 (known finding): strings that go-yaml marshals unquoted INSIDE a container ------------------------------------
+// yaml.Marshal leaves `-`, `- x`, `? x`, `...` and strings with a leading tab unquoted. Top-level string placeholders are
+// repaired in go-snaps (fix D12); the same strings nested in a map / slice placeholder (or Custom result) are written by the
+// dependency's encoder and still do not arrive as the caller's strings. The main campaign never nests such strings; this
+// probe generates only that class.
+var k6Strings = []string{"-", "- x", "? q", "\ttab"}
+
+func k6Case(c c15Case) bool {
+	if c.Kind != "yaml" {
+		return false
+	}
+	for _, st := range c.Steps {
+		for _, u := range k6Strings {
+			q, _ := json.Marshal(u)
+			if ph := string(st.Spec.Placeholder); strings.Contains(ph, string(q)) && (strings.HasPrefix(ph, "{") || strings.HasPrefix(ph, "[")) {
+				return true
+			}
+		}
+	}
+	return false
+}
+
+func TestC15K6_NestedUnquotedStrings(t *testing.T) {
+	p := prop[c15Case]{property: "C15", check: checkC15, classify: func(c15Case) ([]string, bool) { return []string{"k6_probe"}, true },
+		known: func(c c15Case, err error) string {
+			if k6Case(c) {
+				return "K6"
+			}
+			return ""
+		}}
+	p.enumerate(t, func(yield func(c15Case) bool) {
+		if getenv("VERIF_SHARD", "0") != "0" {
+			return
+		}
+		for _, u := range k6Strings {
+			for _, shape := range []string{`{"k":%s}`, `[%s,"plain"]`} {
+				q, _ := json.Marshal(u)
+				tree := JNode{K: "obj", Keys: []string{"a", "b"}, Kids: []JNode{{K: "num", Num: "0"}, {K: "num", Num: "1"}}}
+				c := c15Case{Kind: "yaml", Tree: tree, Form: "string", Test: "TestK6", Newline: true, Steps: []matcherStep{{
+					Spec:  MatcherSpec{Kind: "any", Paths: []string{"$.a"}, Placeholder: json.RawMessage(fmt.Sprintf(shape, q))},
+					Comps: []pathComp{{Key: "a"}}}}}
+				if !yield(c) {
+					return
+				}
+			}
+		}
+	})
 }
 
 func TestC15_MatchersTargeted(t *testing.T) {
